@@ -1,5 +1,184 @@
-(* C29 — Building and inspecting arrays never touches data (placeholder). *)
-From DA Require Import PyBase.
+(* C29 — Building and inspecting arrays never touches data.
+   "Constructing array expressions, reading their metadata and calling optimize never
+   requests a non-empty selection from a non-NumPy source array-like and never calls a
+   user block function on a non-empty block."
+
+   Statements only; proofs in theories/MetaModelFacts.v.  The model (theories/MetaModel.v)
+   transcribes the two places where building touches sources / user functions:
+   meta_from_array (reached from FromArray._meta) and compute_meta; harness/c29.py
+   (fam_meta_model) compares the model's requests and shapes exactly with the real
+   functions on every run.  The whole-program clause ("no other code path reads data")
+   is checked dynamically by the recording-source programs of harness/c29.py, not proved. *)
+From DA Require Import PyBase MetaModel MetaModelFacts.
 Open Scope Z_scope.
-Example C29_placeholder : zsum [1;2;3] = 6. Proof. reflexivity. Qed.
-Print Assumptions C29_placeholder.
+
+(* The selection meta_from_array requests from a source with at least one axis,
+   x[(slice(0,0,None),) * x.ndim], is empty: for ALL axis lengths (no sign hypothesis). *)
+Theorem C29_meta_selection_empty : forall shape : list Z,
+  shape <> [] -> selection_size (meta_index (length shape)) shape = 0.
+Proof. exact selection_size_meta_index. Qed.
+
+(* Full-strength clause "the selection requested while building is empty for EVERY
+   source":   forall shape, selection_size (meta_index (length shape)) shape = 0
+   is FALSE of the faithful model: a 0-d source has no empty selection, x[()] is its
+   single element.  This is known finding F31 (recorded in known_findings.json; replayed
+   against the real code by the corpus case and by fam_meta_model of harness/c29.py). *)
+Theorem C29_zero_dim_source_refuted :
+  exists shape : list Z, selection_size (meta_index (length shape)) shape = 1.
+Proof. exact zero_dim_source_refuted. Qed.
+
+(* meta_from_array makes exactly one request to the source, with one slice per axis *)
+Theorem C29_meta_requests : forall xndim : nat,
+  meta_from_array_requests xndim = [meta_index xndim] /\ length (meta_index xndim) = xndim.
+Proof. exact meta_from_array_requests_spec. Qed.
+
+(* The result of meta_from_array has shape (0,)*ndim (ndim = x.ndim when not given),
+   whether or not the source's __getitem__ raised; hence no elements when ndim >= 1. *)
+Theorem C29_meta_shape : forall (getitem_raises : bool) (xshape : list Z) (ndim : option nat),
+  meta_from_array_shape_gen getitem_raises xshape ndim = repeat 0 (target_ndim xshape ndim) /\
+  (target_ndim xshape ndim <> 0%nat ->
+   zprod (meta_from_array_shape_gen getitem_raises xshape ndim) = 0).
+Proof. exact meta_shape_all. Qed.
+
+(* ... and honestly: a 0-d meta is a 0-d array, which has exactly ONE element.  For a
+   source with >= 1 axes that element is fabricated (sum of an empty selection), for a
+   0-d source it is the source's element (C29_zero_dim_source_refuted). *)
+Theorem C29_zero_dim_meta_has_one_element : forall (getitem_raises : bool) (xshape : list Z) (ndim : option nat),
+  target_ndim xshape ndim = 0%nat ->
+  meta_from_array_shape_gen getitem_raises xshape ndim = [] /\
+  zprod (meta_from_array_shape_gen getitem_raises xshape ndim) = 1.
+Proof. exact zero_dim_meta_one_element. Qed.
+
+(* FromArray._meta: one request meta_index x.ndim, result of shape (0,)*x.ndim *)
+Theorem C29_from_array_meta : forall xshape : list Z,
+  from_array_meta_requests (length xshape) = [meta_index (length xshape)] /\
+  from_array_meta_shape xshape = repeat 0 (length xshape).
+Proof. exact from_array_meta_spec. Qed.
+
+(* compute_meta calls the user function exactly once, with one (meta) argument per argument *)
+Theorem C29_compute_meta_one_call : forall args kwargs : list marg,
+  exists call, compute_meta_calls args kwargs = [call] /\
+    length (fst call) = length args /\ length (snd call) = length kwargs.
+Proof. exact compute_meta_one_call. Qed.
+
+(* what func receives: an expression's cached _meta UNCHANGED, array-likes and dask_array
+   collections normalised to shape (0,)*ndim, everything else passed through *)
+Theorem C29_compute_meta_call_shapes : forall args kwargs : list marg,
+  compute_meta_calls args kwargs = [(map arg_call_shape args, map arg_call_shape kwargs)].
+Proof. exact compute_meta_call_shapes. Qed.
+
+(* every array argument of that call has no elements when its ndim >= 1 (and exactly one
+   when it is 0-d) PROVIDED the metas of the expression arguments have none: compute_meta
+   adds no elements.  The hypothesis is an ASSUMPTION about the expressions' `_meta`
+   (implied by the nominal invariant `_meta.shape = (0,)*ndim`); harness/c29.py checks it on
+   every node of every real expression it builds, and it FAILS for ExpandDims over a 0-d
+   child (finding C29-B, see C29_compute_meta_expr_meta_refuted). *)
+Theorem C29_compute_meta_calls_on_empty : forall (args kwargs : list marg) call (sh : list Z),
+  (forall m, In (MExprArg m) (args ++ kwargs) -> m <> [] -> zprod m = 0) ->
+  In call (compute_meta_calls args kwargs) ->
+  In (Some sh) (fst call ++ snd call) ->
+  (sh <> [] -> zprod sh = 0) /\ (sh = [] -> zprod sh = 1).
+Proof. exact compute_meta_calls_on_empty. Qed.
+
+(* array-likes and collections need no hypothesis *)
+Theorem C29_compute_meta_arraylike_normalised : forall (args kwargs : list marg) call (i : nat) (sh : list Z),
+  In call (compute_meta_calls args kwargs) ->
+  (nth_error (args ++ kwargs) i = Some (MArrayLike sh) \/ nth_error (args ++ kwargs) i = Some (MCollection sh)) ->
+  nth_error (fst call ++ snd call) i = Some (Some (repeat 0 (length sh))).
+Proof. exact compute_meta_arraylike_normalised. Qed.
+
+(* Without the hypothesis the clause is FALSE: an expression whose cached _meta has shape (1,)
+   (real: da.from_array(np.arange(6), 3).sum()[None].expr._meta.shape == (1,)) makes
+   compute_meta call func on a non-empty 1-d array.  Finding C29-B, replayed by the corpus
+   case of fam_meta_model in harness/c29.py. *)
+Theorem C29_compute_meta_expr_meta_refuted :
+  exists args kwargs call sh, compute_meta_calls args kwargs = [call] /\
+    In (Some sh) (fst call) /\ sh <> [] /\ zprod sh = 1.
+Proof. exact compute_meta_expr_meta_refuted. Qed.
+
+(* the requests compute_meta sends: per argument, none unless it is an array-like, then
+   the single meta_index request ... *)
+Theorem C29_compute_meta_requests : forall (args kwargs : list marg) (i : nat) (a : marg),
+  nth_error (args ++ kwargs) i = Some a ->
+  nth_error (compute_meta_requests args kwargs) i =
+    Some (match a with MArrayLike sh => [meta_index (length sh)] | _ => [] end).
+Proof. exact compute_meta_requests_spec. Qed.
+
+(* ... which is empty for every array-like with >= 1 axes (one element for a 0-d one: F31) *)
+Theorem C29_compute_meta_requests_empty : forall (args kwargs : list marg) reqs idx,
+  In reqs (compute_meta_requests args kwargs) -> In idx reqs ->
+  exists shape, In (MArrayLike shape) (args ++ kwargs) /\ idx = meta_index (length shape) /\
+    (shape <> [] -> selection_size idx shape = 0) /\ (shape = [] -> selection_size idx shape = 1).
+Proof. exact compute_meta_requests_empty. Qed.
+
+(* Full-strength clause "the user function is never called on a non-empty block" is
+   FALSE for 0-d arguments: a 0-d meta has one element, so func is called on a
+   one-element 0-d array (finding F33; the element is fabricated, not read from a source,
+   unless the argument is a 0-d array-like or a from_array over one, whose cached meta
+   holds the source's element: F31). *)
+Theorem C29_compute_meta_zero_dim_arg_refuted :
+  exists args kwargs call, compute_meta_calls args kwargs = [call] /\
+    In (Some []) (fst call) /\ zprod [] = 1.
+Proof. exact compute_meta_zero_dim_arg. Qed.
+
+(* Metadata is parametric in the data: two environments whose sources have equal
+   metadata give equal metadata for every expression, and it equals meta_of, which has
+   no access to data.  TRUE BY CONSTRUCTION of the toy language of MetaModel.v (its
+   metadata transformers take only metadata): a statement of the design principle, not
+   a deep theorem and not tied to library code. *)
+Theorem C29_metadata_parametric : forall (e : expr) (env1 env2 : nat -> source),
+  (forall i, src_meta (env1 i) = src_meta (env2 i)) ->
+  a_meta (eval e env1) = a_meta (eval e env2) /\
+  a_meta (eval e env1) = meta_of e (fun i => src_meta (env1 i)).
+Proof. exact metadata_parametric. Qed.
+
+(* ---- non-vacuity ---- *)
+Example C29_ex_selection : selection_shape (meta_index 3) [4; 0; 7] = [0; 0; 0]
+  /\ selection_size (meta_index 3) [4; 0; 7] = 0 /\ selection_size (meta_index 0) [] = 1.
+Proof. vm_compute. repeat split. Qed.
+
+(* the branches of meta_from_array: ndim None / 0 (.sum()) / smaller (reshape) / equal /
+   larger (None axes), a 0-d source, and the except fallback *)
+Example C29_ex_meta_shapes :
+  map (meta_from_array_shape [2; 3; 1]) [None; Some 0; Some 1; Some 3; Some 5]%nat
+    = [[0; 0; 0]; []; [0]; [0; 0; 0]; [0; 0; 0; 0; 0]]
+  /\ map (meta_from_array_shape []) [None; Some 0; Some 2]%nat = [[]; []; [0; 0]]
+  /\ meta_from_array_shape_gen true [2; 3] (Some 1%nat) = [0].
+Proof. vm_compute. repeat split. Qed.
+
+Example C29_ex_compute_meta :
+  compute_meta_calls [MExprArg [0; 0]; MArrayLike [2; 3]; MOther; MExprArg []; MCollection [1; 4]; MExprArg [1; 0]] [MArrayLike []]
+    = [([Some [0; 0]; Some [0; 0]; None; Some []; Some [0; 0]; Some [1; 0]], [Some []])]
+  /\ compute_meta_requests [MExprArg [0; 0]; MArrayLike [2; 3]; MOther; MExprArg []; MCollection [1; 4]; MExprArg [1; 0]] [MArrayLike []]
+    = [[]; [[empty_slice; empty_slice]]; []; []; []; []; [[]]].
+Proof. vm_compute. repeat split. Qed.
+
+(* two environments with the same metadata and different data: same metadata, different values *)
+Definition C29_env (f : Z -> Z -> Z) (i : nat) : source :=
+  mksource (mkmeta [4; 2] [[2; 2]; [2]] 3) (fun idx => match idx with [a; b] => f a b | _ => 0 end).
+Definition C29_e : expr :=
+  EAdd (ESlice0 (mkslice (Some 1) None (Some 2)) (ESrc 0))
+       (ENeg (ESlice0 (mkslice None (Some 2) None) (ERechunk [[4]; [1; 1]] (ESrc 1)))).
+Example C29_ex_parametric :
+  a_meta (eval C29_e (C29_env (fun a b => 10 * a + b))) = mkmeta [2; 2] [[2]; [2]] 3
+  /\ a_meta (eval C29_e (C29_env (fun a b => a * b + 7))) = mkmeta [2; 2] [[2]; [2]] 3
+  /\ map (a_data (eval C29_e (C29_env (fun a b => 10 * a + b)))) (all_indices [2; 2]) = [10; 10; 20; 20]
+  /\ map (a_data (eval C29_e (C29_env (fun a b => a * b + 7)))) (all_indices [2; 2]) = [0; 1; 0; 2]
+  /\ a_data (eval (ESum C29_e) (C29_env (fun a b => 10 * a + b))) [] = 60.
+Proof. vm_compute. repeat split. Qed.
+
+Print Assumptions C29_meta_selection_empty.
+Print Assumptions C29_zero_dim_source_refuted.
+Print Assumptions C29_meta_requests.
+Print Assumptions C29_meta_shape.
+Print Assumptions C29_zero_dim_meta_has_one_element.
+Print Assumptions C29_from_array_meta.
+Print Assumptions C29_compute_meta_one_call.
+Print Assumptions C29_compute_meta_call_shapes.
+Print Assumptions C29_compute_meta_calls_on_empty.
+Print Assumptions C29_compute_meta_arraylike_normalised.
+Print Assumptions C29_compute_meta_expr_meta_refuted.
+Print Assumptions C29_compute_meta_requests.
+Print Assumptions C29_compute_meta_requests_empty.
+Print Assumptions C29_compute_meta_zero_dim_arg_refuted.
+Print Assumptions C29_metadata_parametric.
